@@ -2,7 +2,7 @@
 # usage: tools/try_mutant.sh <diff> <property id> [more ids...]
 # Applies a seeded change to a scratch git worktree of /repo (never to /repo itself), runs the quick checks
 # against it with VERIF_REPO and a scratch output directory, and removes the worktree.
-diff="$1"; shift
+diff=$(readlink -f "$1"); shift
 wt=$(mktemp -d /tmp/trywt-XXXXXX); out=$(mktemp -d /tmp/tryout-XXXXXX)
 git -C /repo worktree add -q --detach "$wt/r" HEAD || exit 2
 if ! git -C "$wt/r" apply "$diff" 2>/dev/null && ! git -C "$wt/r" apply --3way "$diff" >/dev/null 2>&1; then
